@@ -12,6 +12,7 @@ RULE = ('two real J1939-22 stacks; a generated sequence of 1..12 send_pgn calls 
         'time_limit in {0, 1..200 ms}, FEFF end to end and FBFF decoded on the bus by the reference codec only, issued from the application context or '
         'from a timer callback at instants drawn over the job thread\'s sleep; every frame on the bus is decoded independently and matched against the '
         'submissions. non-trivial = at least one group was sent with a time limit (buffered); distinct = distinct scenario JSON')
+FAULT_COUNTERS = {'send_pgn issued from a timer callback (job-thread context)': 'timer_ctx_groups', 'buffer-full flushes': 'full_buffer_flushes'}
 REQUIRED_PROBES = ['groups', 'buffered_groups', 'combined_frames', 'fbff_groups', 'timer_ctx_groups', 'full_buffer_flushes']
 FEFF, FBFF = 3, 2
 
